@@ -123,6 +123,12 @@ func (w fakeWatcher) Watch(ctx context.Context, key string, opts ...clientv3.OpO
 		// scripted: the channel exists at once (as with the real client), the server side of the
 		// watch - and with it its start revision - only when the script registers it
 		b.w = &bootWatch{ch: ch, ctx: ctx, req: rev}
+		if ctx.Err() != nil {
+			// as the real client: a Watch on a context that is already cancelled (the loop's last
+			// call after Shutdown) yields a stream that is closed at once
+			b.w.dead = true
+			close(ch)
+		}
 	}
 	w.f.mu.Unlock()
 	w.f.watchSig <- struct{}{}
